@@ -437,7 +437,14 @@ def c04(ctx):
     q = ctx.quick
     ctx.design("TableDisk", "MC_TableDisk_quick.cfg" if q else "MC_TableDisk_thorough.cfg")
     n = 25 if q else 400
-    ctx.gv("crash-points", "Trace_Table", ["disk", "--mode", "crash", "--seed", str(seed()), "--n", str(n)])
+    if not ctx.gv("crash-points", "Trace_Table", ["disk", "--mode", "crash", "--seed", str(seed()), "--n", str(n)]):
+        return
+    # an apply batch of 27 MiB whose entries read inside the batch: memtable rotations / flushes fall inside FSM.Update
+    if not ctx.gv("crash-points-big-batch", "Trace_Table", ["disk", "--mode", "bigbatch", "--seed", str(seed()), "--n", "1", "--stride", "2" if q else "1"]):
+        return
+    # "data + index in one batch" observed without a crash: command snapshots (index + content of one Pebble snapshot)
+    # taken while a writer applies entries that mix blind writes and in-batch reads
+    ctx.gv("apply-atomicity-under-snapshots", "Trace_Table", ["table", "--mode", "snapconc", "--seed", str(seed()), "--n", str(6 if q else 60), "--ops", "300"], racy=True)
 
 
 @check("C08")
